@@ -1249,6 +1249,10 @@ func (sc *serverConn) handleHeaderFrame(strm *Stream, fr *FrameHeader) error {
 		if !fr.Flags().Has(FlagEndHeaders) {
 			strm.headersFinished = false
 		}
+
+		// Pseudo-header fields must not appear in trailers (RFC 7540 8.1.2.1),
+		// also when the request itself had no regular field before them.
+		strm.regularSeen = true
 	}
 
 	if headerFrame, ok := fr.Body().(*Headers); ok && headerFrame.Stream() == strm.ID() {
